@@ -49,12 +49,12 @@ Proof.
 Qed.
 
 (* the state a run starts from satisfies the invariant *)
-Lemma TInv_init vx nx vn nn inits m g :
+Lemma TInv_init own vx nx vn nn inits m g :
   WF0 vn inits ->
   let es := events_graph g in
   let rv := fst (collect_names es vn nn inits) in
   let rn := snd (collect_names es vn nn inits) in
-  TInv vn inits rv (entered es) (fx_init vx nx rv rn vn nn inits m).
+  TInv vn inits rv (entered es) (fx_init own vx nx rv rn vn nn inits m).
 Proof.
   intros W es rv rn. constructor; simpl; try reflexivity.
   - apply (w_keyed _ _ W).
@@ -79,14 +79,14 @@ Proof.
 Qed.
 
 (* one run *)
-Theorem fix_run_total g vx nx vn nn inits m :
+Theorem fix_run_total g own vx nx vn nn inits m :
   WF0 vn inits -> closed_run (events_graph g) inits ->
-  let r := fix_graph_names g vx nx vn nn inits m in
+  let r := fix_graph_names g own vx nx vn nn inits m in
   snd r = None /\ WF0 (f_vn (fst r)) (f_inits (fst r)) /\ mem_equiv (f_inits (fst r)) inits /\
   TInv vn inits (fst (collect_names (events_graph g) vn nn inits)) (entered (events_graph g)) (fst r).
 Proof.
   intros W Hc r.
-  pose proof (TInv_init vx nx vn nn inits m g W) as T0. simpl in T0.
+  pose proof (TInv_init own vx nx vn nn inits m g W) as T0. simpl in T0.
   assert (Hrv : forall g0 k v, In g0 (entered (events_graph g)) -> In (k, v) (get_dict g0 inits) ->
                   In k (fst (collect_names (events_graph g) vn nn inits))).
   { intros g0 k v A B. eapply collect_keys; eassumption. }
@@ -94,12 +94,12 @@ Proof.
   { apply closed_events; [|apply incl_refl]. intros w Hw g0 k X. eapply Hc; eassumption. }
   pose proof (fx_events_good vn inits _ _ W _ Hev _ T0) as [A B].
   assert (Er : r = fx_events (events_graph g)
-                 (fx_init vx nx (fst (collect_names (events_graph g) vn nn inits))
+                 (fx_init own vx nx (fst (collect_names (events_graph g) vn nn inits))
                     (snd (collect_names (events_graph g) vn nn inits)) vn nn inits m)).
   { unfold r, fix_graph_names. destruct (collect_names (events_graph g) vn nn inits); reflexivity. }
   assert (Hnone : snd r = None).
   { destruct (snd r) as [e|] eqn:Ee; [|reflexivity]. exfalso.
-    pose proof (fix_graph_names_only_valueerror g vx nx vn nn inits m e Ee) as ->.
+    pose proof (fix_graph_names_only_valueerror g own vx nx vn nn inits m e Ee) as ->.
     rewrite Er in Ee. contradiction. }
   rewrite Er in *. specialize (B Hnone).
   split; [exact Hnone|]. split; [eapply TInv_WF0; eassumption|]. split; [|exact B].
@@ -122,17 +122,17 @@ Lemma fix_all_total gs : forall s,
 Proof.
   induction gs as [|g r IH]; intros s W Hc; simpl.
   - split; [reflexivity|]. split; [exact W|]. intros g v. tauto.
-  - destruct (fix_run_total g (f_vx s) (f_nx s) (f_vn s) (f_nn s) (f_inits s) (f_mod s) W (Hc g (or_introl eq_refl)))
+  - destruct (fix_run_total g (f_own s) (f_vx s) (f_nx s) (f_vn s) (f_nn s) (f_inits s) (f_mod s) W (Hc g (or_introl eq_refl)))
       as [A [B [C _]]].
-    unfold fbind. destruct (fix_graph_names g (f_vx s) (f_nx s) (f_vn s) (f_nn s) (f_inits s) (f_mod s)) as [s1 e].
+    unfold fbind. destruct (fix_graph_names g (f_own s) (f_vx s) (f_nx s) (f_vn s) (f_nn s) (f_inits s) (f_mod s)) as [s1 e].
     simpl in *. subst e.
     destruct (IH s1 B) as [A2 [B2 C2]].
     { intros g' Hg'. eapply closed_run_equiv; [exact C|]. apply Hc. right. exact Hg'. }
     split; [exact A2|]. split; [exact B2|]. eapply mem_equiv_trans; eassumption.
 Qed.
 
-Theorem name_fix_pass_total main funcs vx nx vn nn inits :
+Theorem name_fix_pass_total main funcs own vx nx vn nn inits :
   WF0 vn inits -> (forall g, In g (main :: funcs) -> closed_run (events_graph g) inits) ->
-  let r := name_fix_pass main funcs vx nx vn nn inits in
+  let r := name_fix_pass main funcs own vx nx vn nn inits in
   snd r = None /\ WF0 (f_vn (fst r)) (f_inits (fst r)) /\ mem_equiv (f_inits (fst r)) inits.
-Proof. intros W Hc. unfold name_fix_pass. apply (fix_all_total (main :: funcs) (fx_init vx nx [] [] vn nn inits false) W Hc). Qed.
+Proof. intros W Hc. unfold name_fix_pass. apply (fix_all_total (main :: funcs) (fx_init own vx nx [] [] vn nn inits false) W Hc). Qed.
